@@ -38,6 +38,56 @@ fn kuznyechik(t: &mut T) {
         ok &= kz::s_inv(&a16(s_chain[i + 1])) == a16(s_chain[i]);
     }
     t.check("kuznyechik S examples", ok);
+    // the bit-expanded l equals the plain sum of field products: exhaustive per (position, byte) -- complete because
+    // both are GF(2)-linear in the 128 input bits -- plus mixed inputs; gf_mul against an independent shift-and-reduce
+    let mut ok = true;
+    for p in 0..16 {
+        for v in 0..=255u8 {
+            let mut a = [0u8; 16];
+            a[p] = v;
+            ok &= kz::l_func(&a) == kz::l_func_plain(&a);
+        }
+    }
+    let mut a = [0u8; 16];
+    for n in 0..4096u32 {
+        for (i, x) in a.iter_mut().enumerate() {
+            *x = (n.wrapping_mul(2654435761).rotate_left(i as u32) ^ (i as u32 * 97)) as u8;
+        }
+        ok &= kz::l_func(&a) == kz::l_func_plain(&a);
+    }
+    fn mul_ref(mut a: u8, mut b: u8) -> u8 {
+        let mut c = 0;
+        while b != 0 {
+            if b & 1 != 0 {
+                c ^= a;
+            }
+            a = (a << 1) ^ if a & 0x80 != 0 { 0xC3 } else { 0 };
+            b >>= 1;
+        }
+        c
+    }
+    for x in 0..=255u8 {
+        for y in 0..=255u8 {
+            ok &= kz::gf_mul(x, y) == mul_ref(x, y);
+        }
+    }
+    // word formulation of L / L^-1 (parity masks) == octet formulation R^16 / (R^-1)^16
+    for p in 0..16 {
+        for v in 0..=255u8 {
+            let mut a = [0u8; 16];
+            a[p] = v;
+            ok &= kz::l(&a) == kz::l_octets(&a) && kz::l_inv(&a) == kz::l_inv_octets(&a);
+        }
+    }
+    for n in 0..4096u32 {
+        for (i, x) in a.iter_mut().enumerate() {
+            *x = (n.wrapping_mul(0x9E3779B1).rotate_left(3 * i as u32) ^ (i as u32 * 131)) as u8;
+        }
+        ok &= kz::l(&a) == kz::l_octets(&a) && kz::l_inv(&a) == kz::l_inv_octets(&a);
+        ok &= kz::r_word(u128::from_be_bytes(a)).to_be_bytes() == kz::r(&a);
+        ok &= kz::r_inv_word(u128::from_be_bytes(a)).to_be_bytes() == kz::r_inv(&a);
+    }
+    t.check("kuznyechik l forms, gf_mul", ok);
     let r_chain = [
         "00000000000000000000000000000100",
         "94000000000000000000000000000001",
@@ -274,6 +324,25 @@ fn belt(t: &mut T) {
             ok &= d[..len] == flat(&db)[..];
         }};
     }
+    macro_rules! crossw {
+        ($n:expr) => {{
+            let mut w = [0u128; $n];
+            for i in 0..$n {
+                w[i] = u128::from_le_bytes(data[16 * i..16 * i + 16].try_into().unwrap());
+            }
+            let (xb, len) = belt_fix(&data[..16 * $n]);
+            let ew = belt::wblock_enc_words::<$n, _>(&w, |b| u128::from_le_bytes(belt::encrypt(&k1, &b.to_le_bytes())));
+            let dw = belt::wblock_dec_words::<$n, _>(&w, |b| u128::from_le_bytes(belt::encrypt(&k1, &b.to_le_bytes())));
+            let e = belt::wblock_enc(&k1, &xb, len).unwrap();
+            let d = belt::wblock_dec(&k1, &xb, len).unwrap();
+            let fl = |w: &[u128; $n]| -> Vec<u8> { w.iter().flat_map(|v| v.to_le_bytes()).collect() };
+            ok &= e[..len] == fl(&ew)[..] && d[..len] == fl(&dw)[..];
+        }};
+    }
+    crossw!(2);
+    crossw!(3);
+    crossw!(5);
+    crossw!(16);
     cross!(2);
     cross!(3);
     cross!(4);
